@@ -135,8 +135,23 @@ def do_call(s, c):
         r = s.unbind()
         return [1] if r is None else [6, 99]
     if k == RECV:
-        ms = s.receive(c[1])
-        return [3, [msgs.r_msg(m) for m in ms]]
+        # the three documented input types in turn (chosen by the data, so a replay is exact); a caller-owned
+        # bytearray is overwritten as soon as receive() returns, the way a recv_into loop reuses its buffer:
+        # the session must have copied what it keeps, and what it returned must not alias the input
+        data = bytes(c[1])
+        mode = (len(data) + (data[-1] if data else 0)) % 3
+        buf = bytearray(data)
+        arg = data if mode == 0 else buf if mode == 1 else memoryview(buf)
+        try:
+            ms = s.receive(arg)
+        finally:
+            for i in range(len(buf)):
+                buf[i] = 0xAA
+        out = [3, [msgs.r_msg(m) for m in ms]]
+        if mode == 2:
+            arg.release()
+        del buf[:]
+        return out
     if k == DRAIN:
         a = msgs.unopt(c[1])
         d = s.data_to_send() if a is None else s.data_to_send(a)
@@ -307,6 +322,19 @@ def gen_history(rng: random.Random, role=None, length=None, malformed=0.08, chun
     sh = Shadow(role)
     n = rng.randint(1, 14) if length is None else length
     calls, meta = [], []
+    if length is None and rng.random() < 0.06:
+        # a multi-step SASL bind in progress (BindResponse 14 exchanged), then ordinary traffic
+        req = [1, [0, 3, b"", [1, b"GSSAPI", [b"tok"]]], []]
+        resp = [1, [1, [RC_SASL, b"", b"", []], [b"srv"]], []]
+        if role == CLIENT:
+            calls += [[C_BIND, b"", [1, b"GSSAPI", [b"tok"]], []], [RECV, msgs.pack(resp)]]
+            meta += [None, _meta_of([resp])]
+        else:
+            calls += [[RECV, msgs.pack(req)], [S_BINDRESP, 1, [b"srv"], RC_SASL, b"", b"", []]]
+            meta += [_meta_of([req]), None]
+            sh.retired.append(1)
+        sh.next_id = 2
+        n += 2
     pending_tail = b""  # bytes of a message cut by chunking, to be delivered by the next RECV
     synced = True       # False once the byte stream delivered so far is no longer a clean message sequence
     while len(calls) < n:
@@ -343,7 +371,13 @@ def gen_history(rng: random.Random, role=None, length=None, malformed=0.08, chun
                     sh.retired.append(mid)
         else:
             k = rng.choice([1, 1, 1, 2, 3])
-            ms = [gen_response_msg(rng, sh) if role == CLIENT else gen_request_msg(rng, sh) for _ in range(k)]
+            searches = [i for i, kd in sh.open.items() if kd == "search"]
+            if role == CLIENT and searches and rng.random() < 0.15:
+                # a burst for ONE search in ONE delivery: entries/references around (and after) its done
+                sid = rng.choice(searches)
+                ms = [[sid, msgs.g_op(rng, rng.choice([4, 4, 6, 5]), depth=0), []] for _ in range(rng.randint(2, 5))]
+            else:
+                ms = [gen_response_msg(rng, sh) if role == CLIENT else gen_request_msg(rng, sh) for _ in range(k)]
             for m in ms:
                 mid, op = m[0], m[1]
                 if role == CLIENT:
